@@ -135,6 +135,94 @@ theorem C17_closed_forgotten (reg : Reg E) (a : Nat) (op op2 : Op) (e : E) (hl :
 theorem C17_deletes_exactly : deletes "CloseTable" = true ∧ deletes "ReleaseTable" = true ∧
     (Facts.managerTable.filter (fun r => deletes r.name)).map (·.name) = ["CloseTable", "ReleaseTable"] := by decide
 
+-- ---------------------------------------------------------------- every history: the manager is a product of independent tables
+
+/-- one table on its own: absent (never created, closed, released) it answers table-not-found and stays absent; present it
+is the engine's own step, and a successful Close / Release makes it absent -/
+def tstep (st : Option E) (op : Op) : Option E × Out R :=
+  match st with
+  | none => (none, .notFound)
+  | some e =>
+    let r := estep e op
+    if deletes (nameOf op) && !failed r.2 then (none, .result r.2) else (some r.1, .result r.2)
+
+/-- a history of manager calls `(table id, operation)`, with each call's answer -/
+def runCalls (reg : Reg E) : List (Nat × Op) → Reg E × List (Nat × Out R)
+  | [] => (reg, [])
+  | c :: t =>
+    let r := call estep nameOf failed reg c.1 c.2
+    let rest := runCalls r.1 t
+    (rest.1, (c.1, r.2) :: rest.2)
+
+/-- the same for one table on its own -/
+def runTable (st : Option E) : List Op → Option E × List (Out R)
+  | [] => (st, [])
+  | op :: t =>
+    let r := tstep estep nameOf failed st op
+    let rest := runTable r.1 t
+    (rest.1, r.2 :: rest.2)
+
+/-- the operations of a history that are addressed to table `a` / the answers they got -/
+def opsOf (a : Nat) (calls : List (Nat × Op)) : List Op := (calls.filter (fun c => c.1 == a)).map (·.2)
+def outsOf (a : Nat) (outs : List (Nat × Out R)) : List (Out R) := (outs.filter (fun c => c.1 == a)).map (·.2)
+
+/-- a call addressed to `a` is the table's own step -/
+theorem call_self (reg : Reg E) (a : Nat) (op : Op) :
+    lookup (call estep nameOf failed reg a op).1 a = (tstep estep nameOf failed (lookup reg a) op).1 ∧
+    (call estep nameOf failed reg a op).2 = (tstep estep nameOf failed (lookup reg a) op).2 := by
+  unfold call tstep
+  cases hl : lookup reg a with
+  | none => simp [hl]
+  | some e =>
+    simp only
+    split
+    · exact ⟨lookup_delete_self _ _, rfl⟩
+    · exact ⟨lookup_store_self _ _ _, rfl⟩
+
+/-- **C17 — for every history of manager calls, of any length, over any number of tables, for every engine**: what the
+manager holds for table `a` at the end, and the answers the calls addressed to `a` got, are exactly those of table `a`'s
+engine run on its own on the calls addressed to it — the same-named operations, in order, with table-not-found for as
+long as the id is not (or no longer) registered.  Calls addressed to other tables do not appear in it at all. -/
+theorem C17_refines (reg : Reg E) (calls : List (Nat × Op)) (a : Nat) :
+    lookup (runCalls estep nameOf failed reg calls).1 a =
+      (runTable estep nameOf failed (lookup reg a) (opsOf a calls)).1 ∧
+    outsOf a (runCalls estep nameOf failed reg calls).2 =
+      (runTable estep nameOf failed (lookup reg a) (opsOf a calls)).2 := by
+  induction calls generalizing reg with
+  | nil => exact ⟨rfl, rfl⟩
+  | cons c t ih =>
+    have ih' := ih (call estep nameOf failed reg c.1 c.2).1
+    by_cases hc : c.1 = a
+    · have hs := call_self estep nameOf failed reg a c.2
+      have hf : opsOf a (c :: t) = c.2 :: opsOf a t := by simp [opsOf, hc]
+      rw [hf]
+      simp only [runCalls, runTable, outsOf]
+      rw [hc] at ih' ⊢
+      rw [hs.1] at ih'
+      refine ⟨ih'.1, ?_⟩
+      simp only [beq_self_eq_true, List.filter_cons_of_pos, List.map_cons, hs.2]
+      exact congrArg _ ih'.2
+    · have hne : a ≠ c.1 := fun h => hc h.symm
+      have hf : opsOf a (c :: t) = opsOf a t := by
+        have : (c.1 == a) = false := by simpa using hc
+        simp [opsOf, this]
+      rw [hf]
+      simp only [runCalls, outsOf]
+      rw [C17_isolated estep nameOf failed reg c.1 a c.2 hne] at ih'
+      refine ⟨ih'.1, ?_⟩
+      have : (c.1 == a) = false := by simpa using hc
+      simp only [this, Bool.false_eq_true, not_false_eq_true, List.filter_cons_of_neg]
+      exact ih'.2
+
+-- non-vacuity: three tables, interleaved calls, a close in the middle
+example : let estep : Nat → String → Nat × Bool := fun n _ => (n + 1, true)
+    let reg : Reg Nat := { tables := [(1, 10), (2, 20), (3, 30)] }
+    let calls := [(1, "PlayerJoin"), (2, "PlayerJoin"), (1, "CloseTable"), (1, "PlayerJoin"), (2, "UpdateBlind"), (4, "PauseTable")]
+    lookup (runCalls estep id (fun r => !r) reg calls).1 1 = none ∧
+    lookup (runCalls estep id (fun r => !r) reg calls).1 2 = some 22 ∧
+    lookup (runCalls estep id (fun r => !r) reg calls).1 3 = some 30 ∧
+    opsOf 1 calls = ["PlayerJoin", "CloseTable", "PlayerJoin"] := by decide
+
 -- non-vacuity: a two-table registry over a toy engine
 example : let estep : Nat → String → Nat × Bool := fun n _ => (n + 1, true)
     let reg : Reg Nat := { tables := [(1, 10), (2, 20)] }
